@@ -137,3 +137,10 @@ impl<'a, 'b> DebugStructExt<'a, 'b> for std::fmt::DebugStruct<'a, 'b> {
         }
     }
 }
+
+/// Verification hooks (add-only, feature-gated): crate-private component types.
+#[cfg(feature = "hyperium_h2_verif")]
+pub(crate) mod verif {
+    pub(crate) use super::flow_control::FlowControl;
+    pub(crate) use super::state::State;
+}
